@@ -1,0 +1,14 @@
+//go:build verif
+
+package tor
+
+import "github.com/jech/storrent/hash"
+
+// VerifAnnounceHook, when set, is called just before every DHT announce.
+var VerifAnnounceHook func(h hash.Hash, ipv6 bool, port uint16)
+
+func verifAnnounce(h hash.Hash, ipv6 bool, port uint16) {
+	if f := VerifAnnounceHook; f != nil {
+		f(h, ipv6, port)
+	}
+}
